@@ -1,0 +1,11 @@
+//go:build verif
+
+package rtsp
+
+import "net"
+
+// VerifHandleTcpConnect runs the server shell (handleTcpConnect) on a connection
+// supplied by the verification harness instead of one taken from Accept.
+func (s *Server) VerifHandleTcpConnect(conn net.Conn) {
+	s.handleTcpConnect(conn)
+}
